@@ -258,6 +258,11 @@ func (g *cgen) vol(level int) *Vol {
 		v.BlockSize = uint32(r.Pick(8, 16, 64, 512))
 		v.FreeSpace = r.Pick(0, 0, 8, 24, 100)
 	}
+	if r.Chance(1, 5) { // further block-map entries (the first entry is the one Assemble resizes)
+		for i := r.Range(1, 2); i > 0; i-- {
+			v.ExtraBlocks = append(v.ExtraBlocks, [2]uint32{uint32(r.Range(1, 2)), uint32(r.Pick(8, 16, 64))})
+		}
+	}
 	if r.Chance(1, 5) {
 		v.ExtHeader = true
 		copy(v.ExtName[:], r.Bytes(16))
